@@ -21,7 +21,7 @@ import (
 )
 
 type opIn struct {
-	T string `json:"t"`           // set del get snap reset flush reload clone clear clearsnap iter filter
+	T string `json:"t"`           // set del get snap snapraw reset flush reload clone clear clearsnap iter filter
 	K string `json:"k,omitempty"` // key / prefix (hex)
 	V string `json:"v,omitempty"` // value (hex)
 	I int    `json:"i,omitempty"` // snapshot index for reset
@@ -121,8 +121,11 @@ func genHistory(r *rand.Rand) histIn {
 			ops = append(ops, opIn{T: "del", K: hx(pick())})
 		case x < 62:
 			ops = append(ops, opIn{T: "get", K: hx(pick())})
-		case x < 68:
+		case x < 65:
 			ops = append(ops, opIn{T: "snap"})
+			nsnap++
+		case x < 68:
+			ops = append(ops, opIn{T: "snapraw"})
 			nsnap++
 		case x < 71:
 			if nsnap > 0 {
@@ -287,6 +290,12 @@ func runHistory(h histIn, wantCoq bool, corrupt bool) (coq string, ntbl int, ora
 			emit("OSnap")
 			observe(s, what)
 			snaps = append(snaps, snapRec{s, copyRef(ref), s.Hash()})
+		case "snapraw":
+			// a snapshot that is not hashed or read until the end of the history: later
+			// mutations of the trie must not reach it (GetSnapshot freezes the nodes)
+			s := mut.GetSnapshot()
+			emit("OSnap")
+			snaps = append(snaps, snapRec{s, copyRef(ref), nil})
 		case "reset":
 			if op.I < len(snaps) {
 				if err := mut.Reset(snaps[op.I].s); err != nil {
@@ -353,6 +362,20 @@ func runHistory(h histIn, wantCoq bool, corrupt bool) (coq string, ntbl int, ora
 	}
 	// persistence: every snapshot taken on the way still shows its own content
 	for i, sr := range snaps {
+		if sr.hash == nil && len(sr.ref) > 0 {
+			got, err := tl.Iterate(sr.s.Iterator())
+			if err != nil || !tl.KVsEqual(got, tl.SortedRef(sr.ref, nil)) {
+				fail("snapshot#%d (not hashed when taken): content changed by later operations on the mutable trie (err=%v)", i, err)
+			}
+			if err := mut.Reset(sr.s); err != nil {
+				fail("final reset to snapshot#%d: %v", i, err)
+			}
+			ref = copyRef(sr.ref)
+			emit(fmt.Sprintf("OReset %d%%nat", i))
+			observe(mut.GetSnapshot(), fmt.Sprintf("snapshot#%d at the end", i))
+			iterate(mut.GetSnapshot(), nil, false, fmt.Sprintf("snapshot#%d at the end", i))
+			continue
+		}
 		if !bytes.Equal(sr.s.Hash(), sr.hash) {
 			fail("snapshot#%d: hash changed from %x to %x by later operations", i, sr.hash, sr.s.Hash())
 		}
